@@ -26,6 +26,18 @@ class HB(BaseException):
     pass
 
 
+class _T1:
+    pass
+
+
+class _T2:
+    pass
+
+
+class _TwoTypes(_T1, _T2):
+    pass
+
+
 class _Awaitable:
     """A non-coroutine awaitable (what a sync callback may legitimately return)."""
 
@@ -38,12 +50,14 @@ class _Awaitable:
 
 def shapes(level: str) -> list[dict]:
     out = []
-    for route in ("ctx", "mod", "res", "gen"):
+    for route in ("ctx", "mod", "res", "gen", "svcwin"):
         for mode in ("sync", "async", "awaitable"):
+            if route == "svcwin" and mode != "sync":
+                continue
             if route == "gen" and mode == "awaitable":
                 continue
             for pe in (False, True):
-                if route in ("res",) and pe:
+                if route in ("res", "svcwin") and pe:
                     continue
                 if route == "gen" and not pe:
                     continue  # the generator always receives the exception
@@ -53,6 +67,8 @@ def shapes(level: str) -> list[dict]:
                         if level == "full":
                             out.append(sh)
                         elif level == "mid":
+                            if route == "svcwin" and (nest or raises == "B"):
+                                continue
                             if route == "mod" and (mode == "awaitable" or nest):
                                 continue
                             if nest and mode == "awaitable":
@@ -255,7 +271,26 @@ class C01(E1Check):
             elif route == "mod":
                 add_teardown_callback(make_cb(label, spec), pass_exception=spec["pe"])
             elif route == "res":
-                ctx.add_resource(object(), "r" + label, teardown_callback=make_cb(label, spec))
+                if int(label) % 2:
+                    # published under two types: the callback is still ONE callback
+                    ctx.add_resource(_TwoTypes(), "r" + label, [_T1, _T2], teardown_callback=make_cb(label, spec))
+                else:
+                    ctx.add_resource(object(), "r" + label, teardown_callback=make_cb(label, spec))
+            elif route == "svcwin":
+                # a callback registered on the context while start_service_task() is still starting the task: the task's
+                # finalizer is registered afterwards, so at teardown the task is stopped first, then this callback runs
+                async def svc(*, task_status: Any) -> None:
+                    ctx.add_teardown_callback(make_cb(label, spec))
+                    st["model"].append(label)
+                    log("reg", label)
+                    task_status.started()
+                    try:
+                        await anyio.Event().wait()
+                    finally:
+                        log("svc-end", label)
+
+                await ctx.start_service_task(svc, "svc" + label)
+                return
             else:
                 await genfn(label, spec)
             st["model"].append(label)
@@ -380,6 +415,13 @@ class C01(E1Check):
                 fail("unfinished", "control returned to the caller while a callback (or the awaitable it returned) had not completed")
         if sorted(st["ended"]) != sorted(started):
             fail("unfinished", f"started {started} but completed {st['ended']}")
+        if not program["end"].startswith("cancel"):
+            for ev in env.trace:
+                if ev[0] == "cb+" and specs.get(ev[1], {}).get("route") == "svcwin":
+                    i_cb = env.trace.index(ev)
+                    i_end = next((i for i, e2 in enumerate(env.trace) if e2[0] == "svc-end" and e2[1] == ev[1]), None)
+                    if i_end is None or i_end > i_cb:
+                        fail("order", f"callback {ev[1]} (registered while its service task was starting) ran before the task was stopped")
         # (3) pass_exception
         body_exc = st["body_exc"]
         for lab, got in st["got_exc"].items():
@@ -404,6 +446,16 @@ class C01(E1Check):
             ok = out is not None and any(
                 len(g.exceptions) == len(L) and all(a is b for a, b in zip(g.exceptions, L)) for g in groups(out)
             )
+            has_svc = any(c["route"] == "svcwin" for c in program["cbs"])
+            if not ok and has_svc:
+                # the service task's own finalizer is a teardown callback too (not one of the harness's): under a cancelled
+                # teardown it contributes a cancellation exception of its own to the group
+                import asyncio as _asyncio
+
+                def mine(g: BaseExceptionGroup) -> list:
+                    return [x for x in g.exceptions if any(x is y for y in L) or not isinstance(x, _asyncio.CancelledError)]
+
+                ok = out is not None and any(len(mine(g)) == len(L) and all(a is b for a, b in zip(mine(g), L)) for g in groups(out))
             if not ok and env.backend == "trio":
                 # trio's nurseries / cancel scopes split the backend's own cancellation exceptions off an exception group (and
                 # collapse a group that holds nothing else): demand the group for the exceptions the callbacks raised themselves
@@ -421,17 +473,30 @@ class C01(E1Check):
                 fail("group", f"callbacks raised {L!r} but the caller saw {out!r}")
         else:
             end = program["end"]
+            def only_cancellations0(e: BaseException) -> bool:
+                if isinstance(e, BaseExceptionGroup):
+                    return all(only_cancellations0(x) for x in e.exceptions)
+                return isinstance(e, anyio.get_cancelled_exc_class())
+
             if body_exc is None:
-                if out is not None:
+                late_cancel = ("CANCEL",) in env.trace and any(c["route"] == "svcwin" for c in program["cbs"])
+                if out is not None and not (late_cancel and only_cancellations0(out)):
+                    # (a cancellation that lands on the block's last step hits the service task's finalizer during the teardown)
                     fail("outcome", f"clean block, no callback raised, caller saw {out!r}")
             elif isinstance(body_exc, Exception) and not isinstance(body_exc, BaseExceptionGroup):
                 if out is not body_exc:
                     fail("outcome", f"block raised {body_exc!r}, no callback raised, caller saw {out!r}")
             else:
+                def only_cancellations(e: BaseException) -> bool:
+                    if isinstance(e, BaseExceptionGroup):
+                        return all(only_cancellations(x) for x in e.exceptions)
+                    return isinstance(e, anyio.get_cancelled_exc_class())
+
                 if out is None:
                     fail("outcome", f"block ended with {body_exc!r} but the caller saw a normal exit")
                 elif end.startswith("cancel") and not isinstance(out, anyio.get_cancelled_exc_class()):
-                    fail("outcome", f"block was cancelled, no callback raised, caller saw {out!r}")
+                    if not (any(c["route"] == "svcwin" for c in program["cbs"]) and only_cancellations(out)):
+                        fail("outcome", f"block was cancelled, no callback raised, caller saw {out!r}")
 
 
 CHECK = C01()
